@@ -9,9 +9,10 @@
    body are walked through sorted(...) (repair of F-C10-promotion-order, known_findings.d/C10.json kind "fixed").
    [promote_with sigma] / [transl_with sigma] are the same algorithm walking the sets unsorted - the code before the
    repair - and occur only in the last-but-one group of statements. *)
-From Coq Require Import ZArith List Bool Permutation Sorted String.
+From Coq Require Import ZArith QArith List Bool Permutation Sorted String.
 From RV Require Import Base.Wire Base.Text Lang.Order Proofs.OrderP.
 From RV Require Import Gen.SetSites Lang.OrderSites Proofs.OrderSitesP Lang.DevSession Proofs.DevSessionP.
+From RV Require Lang.SortKey Proofs.SortKeyP Lang.MemoSession Proofs.MemoSessionP.
 Import ListNotations.
 Open Scope Z_scope.
 
@@ -274,3 +275,139 @@ Print Assumptions C10_no_shared_default.
 Theorem C10_ctx_seeded_fresh : forall e, In e ctx_preseeded -> snd e = true.
 Proof. exact preseeded_fresh. Qed.
 Print Assumptions C10_ctx_seeded_fresh.
+
+(* ---------------------------------------------------------------- sorted() with a key (Lang/SortKey.v) *)
+(* sorted(<set>, key=k) is stable: names whose keys tie keep the iteration order of the set.  ANY tie between two different names
+   separates two iteration orders - for every key type, every order on the keys, every key function *)
+Theorem C10_keyed_sort_tie_refuted : forall (K : Type) (kle : K -> K -> bool) (key : ident -> K) x y,
+  x <> y -> SortKey.key_tie K kle key x y = true ->
+  SortKey.keyed_sorted_site K kle key sid [x; y] <> SortKey.keyed_sorted_site K kle key srev [x; y].
+Proof. exact SortKeyP.tie_separates. Qed.
+Print Assumptions C10_keyed_sort_tie_refuted.
+
+(* ... what comes out for the tied pair is the iteration order itself *)
+Theorem C10_keyed_sort_tie_keeps_set_order : forall (K : Type) (kle : K -> K -> bool) (key : ident -> K) x y,
+  SortKey.key_tie K kle key x y = true ->
+  SortKey.keyed_sorted_site K kle key sid [x; y] = [x; y] /\ SortKey.keyed_sorted_site K kle key srev [x; y] = [y; x].
+Proof. exact SortKeyP.tie_keeps_iteration_order. Qed.
+Print Assumptions C10_keyed_sort_tie_keeps_set_order.
+
+(* guard: a total, transitive order on keys and a key that separates the names of the set - then one result for all orders *)
+Theorem C10_keyed_sort_partial : forall (K : Type) (kle : K -> K -> bool) (key : ident -> K),
+  (forall a b, kle a b = true \/ kle b a = true) ->
+  (forall a b c, kle a b = true -> kle b c = true -> kle a c = true) ->
+  forall s1 s2 l, perm_oracle s1 -> perm_oracle s2 -> SortKey.key_injective_on K kle key l ->
+  SortKey.keyed_sorted_site K kle key s1 l = SortKey.keyed_sorted_site K kle key s2 l.
+Proof. exact SortKeyP.keyed_site_independent. Qed.
+Print Assumptions C10_keyed_sort_partial.
+
+Example C10_keyed_sort_partial_nonvacuous :
+  SortKey.key_injective_on (list SortKey.chunk) SortKey.chunks_leb SortKey.natkey [SortKey.n_key1; SortKey.n_key2; SortKey.n_key10] /\
+  SortKey.keyed_sorted_site (list SortKey.chunk) SortKey.chunks_leb SortKey.natkey srev [SortKey.n_key1; SortKey.n_key2; SortKey.n_key10]
+    = [SortKey.n_key1; SortKey.n_key2; SortKey.n_key10].
+Proof. exact SortKeyP.natkey_injective_example. Qed.
+Print Assumptions C10_keyed_sort_partial_nonvacuous.
+
+(* the key-less sorted() of the code is the instance "key = the name": injective on every set, hence unconditional above *)
+Theorem C10_keyless_sort_is_the_identity_key : forall s l,
+  SortKey.keyed_sorted_site text text_leb SortKey.idkey s l = sorted_site s l.
+Proof. exact SortKeyP.keyless_is_idkey. Qed.
+Print Assumptions C10_keyless_sort_is_the_identity_key.
+
+Theorem C10_identity_key_injective : forall l, SortKey.key_injective_on text text_leb SortKey.idkey l.
+Proof. exact SortKeyP.idkey_injective. Qed.
+Print Assumptions C10_identity_key_injective.
+
+(* natural number order (btn2 before btn10): key1 and key01 tie, so the order of two Buttons / LCDs so named would follow the hash seed *)
+Theorem C10_natural_key_refuted : exists s1 s2 l, perm_oracle s1 /\ perm_oracle s2 /\
+  SortKey.keyed_sorted_site (list SortKey.chunk) SortKey.chunks_leb SortKey.natkey s1 l <>
+  SortKey.keyed_sorted_site (list SortKey.chunk) SortKey.chunks_leb SortKey.natkey s2 l.
+Proof. exact SortKeyP.natkey_site_refuted. Qed.
+Print Assumptions C10_natural_key_refuted.
+
+Example C10_natural_key_witness :
+  SortKey.keyed_sorted_site (list SortKey.chunk) SortKey.chunks_leb SortKey.natkey sid [SortKey.n_key1; SortKey.n_key01; SortKey.n_key2; SortKey.n_key10]
+    = [SortKey.n_key1; SortKey.n_key01; SortKey.n_key2; SortKey.n_key10] /\
+  SortKey.keyed_sorted_site (list SortKey.chunk) SortKey.chunks_leb SortKey.natkey srev [SortKey.n_key1; SortKey.n_key01; SortKey.n_key2; SortKey.n_key10]
+    = [SortKey.n_key01; SortKey.n_key1; SortKey.n_key2; SortKey.n_key10] /\
+  sorted_site srev [SortKey.n_key1; SortKey.n_key01; SortKey.n_key2; SortKey.n_key10] = [SortKey.n_key01; SortKey.n_key1; SortKey.n_key10; SortKey.n_key2].
+Proof. exact SortKeyP.natkey_witness. Qed.
+Print Assumptions C10_natural_key_witness.
+
+(* the CURRENT source: no sorted() over a set takes a key *)
+Theorem C10_sorted_sites_keyless : forall s, In s sites -> s_keyed s = false.
+Proof. exact sorted_sites_keyless. Qed.
+Print Assumptions C10_sorted_sites_keyless.
+
+(* ---------------------------------------------------------------- memoised helpers (Lang/MemoSession.v) *)
+(* a process-wide memo table in front of a pure helper of the emitter - any key equality, any set of memoised calls, any
+   hit / eviction policy that invents no entries, any initial table of true results - cannot be seen, PROVIDED calls the table
+   identifies have one result *)
+Theorem C10_memo_stateless_partial : forall keq cached hit miss,
+  MemoSession.key_refines keq cached -> MemoSession.policy_ok hit -> MemoSession.policy_ok miss ->
+  forall t before p after, MemoSession.table_ok t ->
+  nth_error (MemoSession.session keq cached hit miss t (before ++ p :: after)) (List.length before) = Some (map MemoSession.spec p).
+Proof. exact MemoSessionP.memo_stateless. Qed.
+Print Assumptions C10_memo_stateless_partial.
+
+Example C10_memo_stateless_nonvacuous :
+  MemoSession.key_refines MemoSession.py_keq MemoSession.cache_fmt /\
+  MemoSession.cache_fmt (MemoSession.CFmt (MemoSession.VB true)) = true /\
+  MemoSession.py_keq (MemoSession.CFmt (MemoSession.VF (1 # 1))) (MemoSession.CFmt (MemoSession.VB true)) = true /\
+  MemoSession.session MemoSession.py_keq MemoSession.cache_fmt MemoSession.keep MemoSession.keep []
+    [[MemoSession.CFmt (MemoSession.VB true)]; [MemoSession.CFmt (MemoSession.VF (1 # 1)); MemoSession.CFmt (MemoSession.VI 1)]]
+    = [[MemoSession.OFix 1000000]; [MemoSession.OFix 1000000; MemoSession.OFix 1000000]].
+Proof. exact MemoSessionP.memo_nonvacuous. Qed.
+Print Assumptions C10_memo_stateless_nonvacuous.
+
+(* the guard is tight: ONE pair of memoised calls that the table identifies and whose results differ makes the second program
+   come out with the first one's text *)
+Theorem C10_memo_conflation_refuted : forall keq cached a b,
+  cached a = true -> cached b = true -> keq b a = true -> MemoSession.spec a <> MemoSession.spec b ->
+  MemoSession.session keq cached MemoSession.keep MemoSession.keep [] [[a]; [b]] = [[MemoSession.spec a]; [MemoSession.spec a]] /\
+  nth_error (MemoSession.session keq cached MemoSession.keep MemoSession.keep [] ([[a]] ++ [[b]])) 1 <> Some (map MemoSession.spec [b]).
+Proof. exact MemoSessionP.conflation_refutes. Qed.
+Print Assumptions C10_memo_conflation_refuted.
+
+(* functools.lru_cache in front of _emit_duration_ms: Python's == identifies the int 100 (a defaulted on_ms) with the float 100.0
+   (a spelled-out one), str() does not *)
+Theorem C10_lru_cache_on_duration_refuted : exists before p,
+  nth_error (MemoSession.session MemoSession.py_keq MemoSession.cache_all MemoSession.keep MemoSession.keep [] (before ++ [p]))
+            (List.length before) <> Some (map MemoSession.spec p).
+Proof. exact MemoSessionP.lru_cache_on_duration_refuted. Qed.
+Print Assumptions C10_lru_cache_on_duration_refuted.
+
+Example C10_lru_cache_on_duration_witness :
+  MemoSession.session MemoSession.py_keq MemoSession.cache_all MemoSession.keep MemoSession.keep [] [[MemoSession.beep_default]; [MemoSession.beep_explicit]] =
+    [[MemoSession.ODurLit MemoSession.ind4 MemoSession.v_on_ms (MemoSession.VI 100)]; [MemoSession.ODurLit MemoSession.ind4 MemoSession.v_on_ms (MemoSession.VI 100)]] /\
+  MemoSession.session MemoSession.py_keq MemoSession.cache_all MemoSession.keep MemoSession.keep [] [[MemoSession.beep_explicit]; [MemoSession.beep_default]] =
+    [[MemoSession.ODurLit MemoSession.ind4 MemoSession.v_on_ms (MemoSession.VF (100 # 1))]; [MemoSession.ODurLit MemoSession.ind4 MemoSession.v_on_ms (MemoSession.VF (100 # 1))]] /\
+  map (map MemoSession.spec) [[MemoSession.beep_default]; [MemoSession.beep_explicit]] =
+    [[MemoSession.ODurLit MemoSession.ind4 MemoSession.v_on_ms (MemoSession.VI 100)]; [MemoSession.ODurLit MemoSession.ind4 MemoSession.v_on_ms (MemoSession.VF (100 # 1))]].
+Proof. exact MemoSessionP.duration_witness. Qed.
+Print Assumptions C10_lru_cache_on_duration_witness.
+
+(* ... whereas the same cache in front of _format_float alone is harmless (float(value) forgets what == identifies), *)
+Theorem C10_format_float_cache_harmless : forall t before p after, MemoSession.table_ok t ->
+  nth_error (MemoSession.session MemoSession.py_keq MemoSession.cache_fmt MemoSession.keep MemoSession.keep t (before ++ p :: after))
+            (List.length before) = Some (map MemoSession.spec p).
+Proof. exact MemoSessionP.format_float_cache_harmless. Qed.
+Print Assumptions C10_format_float_cache_harmless.
+
+(* ... and so is lru_cache(typed=True) in front of any of them *)
+Theorem C10_typed_cache_harmless : forall cached t before p after, MemoSession.table_ok t ->
+  nth_error (MemoSession.session MemoSession.typed_keq cached MemoSession.keep MemoSession.keep t (before ++ p :: after))
+            (List.length before) = Some (map MemoSession.spec p).
+Proof. exact MemoSessionP.typed_cache_harmless. Qed.
+Print Assumptions C10_typed_cache_harmless.
+
+(* the CURRENT source: no function of the three files carries a memoising decorator, *)
+Theorem C10_no_cached_helper : cache_sites = [].
+Proof. exact no_cached_helper. Qed.
+Print Assumptions C10_no_cached_helper.
+
+(* ... hence the helpers are stateless in every session, for every key equality, policy and initial table *)
+Theorem C10_helpers_stateless_current_source : forall keq hit miss t before p after,
+  nth_error (MemoSession.session keq cached_gen hit miss t (before ++ p :: after)) (List.length before) = Some (map MemoSession.spec p).
+Proof. exact helpers_stateless_current_source. Qed.
+Print Assumptions C10_helpers_stateless_current_source.
